@@ -1,5 +1,6 @@
 """C02 - acknowledgement happens exactly once and never before the configured point."""
 import json
+import os
 import random
 import zlib
 
@@ -28,7 +29,12 @@ META = dict(
                "lock-step backlogs (several slots free at once, the runner dispatches several queued messages in one step), "
                "stop requests, budgets, with the statement re-checked over the raw log of the ack callables, task bodies "
                "and result backend: no ack callable called twice, none before its configured point, every ackable valid "
-               "message whose processing is complete acknowledged exactly once.",
+               "message whose processing is complete acknowledged exactly once. Third family (implementation only): the real "
+               "taskiq.api.run_receiver_task runs as a task of an embedding application that cancels it while sync task functions "
+               "(taking virtual time) run in / wait queued inside a pool with fewer threads than sync tasks in flight, and goes on "
+               "running its loop: the same oracle over what the callbacks left behind do; an ack call under when_executed for a "
+               "function that never started (and did not time out) is a violation. Part of the command-line listen scenarios is "
+               "run by the real start_listen on the loop it creates.",
     level_note="Scope (the reading that demands less): malformed / unknown-task messages are never acknowledged by the code "
                "and are outside the statement (C01 covers them); hook failure is outside the quantifier, but the ack "
                "position / at-most-once theorems hold with raising hooks too. 'Task function finished' for a sync function "
@@ -37,11 +43,16 @@ META = dict(
     rule="case = 1-6 concurrent messages x ack type x ackable(sync/async/none) x outcome x stack; non-trivial iff some "
          "ackable well-formed message has an outcome other than plain return, or a failing backend, or runs concurrently "
          "with another message; distinct by canonical case. Second family: case = receiver scenario (harness/recv_props.py) run through "
-         "listen(); non-trivial iff finite max_async_tasks and >= 2 ackable valid messages without failing hooks",
+         "listen(); non-trivial iff finite max_async_tasks and >= 2 ackable valid messages without failing hooks. Third family: case = "
+         "scenario of recv_props.gen_live_cancel (run_receiver_task cancelled at an instant / relative to a body entry or callback "
+         "start, sync_workers 1..3, sync functions with durations); non-trivial iff >= 2 ackable valid messages without failing hooks",
     trusted_base=["model: coq/theories/Pipeline.v (hand-written transcription of Receiver.callback / run_task)",
                   "recorders and shims of harness/drivers/pipeline_driver.py (time() marks, base-class hook loggers)",
                   "asyncio.wait_for / thread-pool behaviour as modelled by body_run (exercised, not verified)"],
     assumptions=["an ack callback that itself raises is outside the property",
+                 "KNOWN FINDING D16 sync_function_submitted_after_pool_shutdown: run_receiver_task cancelled by its application while "
+                 "the callback of a sync-function message is still suspended before it hands the function to the pool - the message "
+                 "is acknowledged with the shut-down executor's RuntimeError as its result (corpus/C02/known/)",
                  "duration = timeout (timer tie, c_tie) is an environment choice in the theorems and is not generated; the "
                  "thread race of a sync body under timeout <= 0 (c_race) is exercised through scripted eager / lazy executors"],
 )
@@ -66,6 +77,9 @@ ORACLES = [L.oracle_c02]
 # message from the queue and its callback - which message object a callback task gets - is invisible there.)
 PROF_LISTEN = dict(limited_only=True, backlog=True, A_choices=[1, 2, 2, 3, 3, 4], P_choices=[0, 1, 2, 2, 2, 3, 3, 4], equal_p=.5, stop_p=.3, n_p=.15, ends_p=.15,
                    wtt_p=.1, slowcancel=.1, aw_p=.15, outage_p=.08, wire_p=.1)
+# an application embeds the receiver (run_receiver_task) and cancels that task while sync functions wait in a small pool
+# (recv_props.gen_live_cancel)
+PROF_CANCEL = dict(stop_p=.12, n_p=.08, ends_p=.1, wtt_p=.08, slowcancel=.05, aw_p=.12, outage_p=.05, wire_p=.1)
 PROF_LISTEN_MIX = dict(equal_p=.3, stop_p=.4, n_p=.25, ends_p=.2, wtt_p=.15, aw_p=.15, wire_p=.1)
 
 
@@ -113,13 +127,22 @@ def oracle_listen(sc, obs):
         elif acks:
             a = acks[0]
             tl = m.get("tlabel_us")
-            executed = (not bin_) or any(k < a for k in bout) or \
-                (tl is not None and tl < m["dur"] and f.raw[a][0] >= f.raw[bin_[0]][0] + tl)
+            # the task function has finished: its body has really ended; or its timeout label has expired (counted from the
+            # body entry; a function that was still waiting for a pool thread when its label expired has "timed out" as well);
+            # or the message never gets as far as its function for a reason that is the pipeline's business (a failing
+            # pre_execute hook: C10).  A function that never STARTED - and was not timed out - has not finished.
+            if bin_:
+                executed = any(k < a for k in bout) or (tl is not None and tl < m["dur"] and f.raw[a][0] >= f.raw[bin_[0]][0] + tl)
+            else:
+                executed = tl is not None or not f.must_run(i)
             if at == "when_executed":
-                if bin_ and not executed:
-                    out.append(dict(what="C02/listen: when_executed - acknowledged before the task function finished",
-                                    observed=dict(msg=i, ack_at_us=f.raw[a][0]), expected="ack call after the body ended / timed out",
-                                    sig=dict(sig, kind="executed")))
+                if not executed:
+                    out.append(dict(what="C02/listen: when_executed - acknowledged before the task function finished" if bin_ else
+                                    "C02/listen: when_executed - acknowledged although the task function had not even started",
+                                    observed=dict(msg=i, ack_at_us=f.raw[a][0], function_entered_at_us=f.bodyin.get(i),
+                                                  worker_task_cancelled_at_us=f.cancel_t),
+                                    expected="ack call after the body ended / timed out",
+                                    sig=dict(sig, kind="executed", d16=R.d16_facts(sc, f, i, f.raw[a][0]))))
             else:
                 saves, send = pos.get(("save", i), []), pos.get(("save.end", i), [])
                 ok = any(k < a for k in send) if saves else executed
@@ -159,6 +182,8 @@ def back_to_back(obs):
 
 
 def nontrivial_listen(sc):
+    if R.is_live(sc):
+        return sum(1 for m in sc["msgs"] if in_quantifier(m)) >= 2
     return R.limited(sc) and sum(1 for m in sc["msgs"] if in_quantifier(m)) >= 2
 
 
@@ -172,9 +197,11 @@ def explore_listen(ctx, rep, scs, label):
         for f in oracle_listen(sc, o):
             rep.fail(f["what"], sc, observed=f["observed"], expected=f["expected"], sig=f["sig"])
         R.count_inputs(rep, sc)
+        if R.is_live(sc):
+            R.count_live(rep, sc, o)
         rep.count("listen:ack_type=%s" % sc.get("ack_type"))
         rep.count("listen:max_prefetch%s" % (">=1" if sc["P"] else "=0"))
-        rep.count("listen:config=" + ("command-line" if sc.get("cli") is not None else "run_receiver_task" if sc.get("api") is not None
+        rep.count("listen:config=" + ("run_receiver_task-running-for-real" if R.is_live(sc) else "command-line" if sc.get("cli") is not None else "run_receiver_task" if sc.get("api") is not None
                                       else "direct"))
         b = back_to_back(o)
         rep.count("listen:runner-dispatched-two-messages-in-one-step:%s" % ("never" if not b else "1-2" if b < 3 else "3+"))
@@ -217,11 +244,44 @@ def run(ctx):
     if lcorp:
         explore_listen(ctx, rep, [c["case"] if "case" in c else c for c in lcorp], "corpus:listen")
     explore_listen(ctx, rep, [R.gen_scenario(rl, PROF_LISTEN if i % 4 else PROF_LISTEN_MIX) for i in range(ctx.n(260, 12000))], "listen")
+    # third family (own random stream): run_receiver_task running for real, cancelled by the application that embeds it while
+    # sync functions wait in a pool with fewer threads than sync tasks in flight
+    rc = ctx.sub_rng("gen-cancel")
+    explore_listen(ctx, rep, [R.gen_live_cancel(rc, PROF_CANCEL) for _ in range(ctx.n(70, 3000))], "listen-cancel")
     if (broken or any(not o["ok"] for o in rep.obligations)) and not rep.failures:
         r2 = ctx.sub_rng("search")
         L.explore(ctx, rep, "C02", [L.gen_recv(r2, "c02") for _ in range(ctx.n(5000, 60000))], "search", ORACLES,
                   nontrivial)
-    return L.finish(rep, "C02")
+    d16 = known_d16(ctx, rep)
+    rep.extra["known_finding_D16_hits_this_run"] = sum(1 for f in rep.failures if R.sig_d16(f))
+    return rep.finish({L.D10_SIG: lambda f: bool(f["sig"].get("d10")), R.SIG_D16: R.sig_d16}, {R.SIG_D16: d16})
+
+
+def known_d16(ctx, rep):
+    """known finding D16 (known_findings.json, signature sync_function_submitted_after_pool_shutdown): its replays under
+    corpus/C02/known run on every check through the driver and the direct oracle (no model: run_receiver_task's life cycle).
+    True iff the finding reproduced on this tree WITH its signature; otherwise rep.extra says the entry is stale."""
+    d = os.path.join(C.VERIF, "corpus", "C02", "known")
+    files = sorted(f for f in os.listdir(d) if f.endswith(".json")) if os.path.isdir(d) else []
+    cases = []
+    for f in files:
+        rec = json.load(open(os.path.join(d, f)))
+        cases.append(rec["case"] if "case" in rec else rec)
+    hit = False
+    for f, sc, o in zip(files, cases, C.run_driver(ctx, "recv_driver", cases) if cases else []):
+        rep.case(sc, True)
+        rep.count("known-finding-replay:" + f[:-5])
+        if "_crash" in o:
+            rep.fail("driver crashed", sc, observed=o["_crash"], sig=dict(kind="crash"))
+            continue
+        for fl in oracle_listen(sc, o):
+            hit = hit or R.sig_d16(fl)
+            rep.fail(fl["what"], sc, observed=fl["observed"], expected=fl["expected"], sig=fl["sig"])
+    rep.extra["corpus_d16_sync_function_submitted_after_pool_shutdown"] = \
+        "reproduces (known finding)" if hit else "does NOT reproduce on this tree: the known_findings.json entry is stale"
+    if files and not hit:
+        print("NOTE: property=C02 known finding %s no longer reproduces from corpus/C02/known - its known_findings.json entry is stale" % R.SIG_D16)
+    return hit
 
 
 def is_listen_case(rec):
@@ -231,5 +291,12 @@ def is_listen_case(rec):
 
 def replay(ctx, path):
     if is_listen_case(json.load(open(path))):
-        return R.replay_print(ctx, path, oracle_listen, "C01_check")
+        def oracle_noting(sc, obs):
+            fl = oracle_listen(sc, obs)
+            for f in fl:
+                if R.sig_d16(f):
+                    f["what"] += "  [recorded as known finding %s in known_findings.json]" % R.SIG_D16
+            return fl
+
+        return R.replay_print(ctx, path, oracle_noting, "C01_check")
     return L.replay(ctx, path, ORACLES)
